@@ -150,6 +150,7 @@ def run(chk: Check) -> None:
     run_self_leak_stores(chk, ix)
     run_slot_store_order(chk, ix)
     run_glue_unbox_borrows(chk, ix)
+    run_preallocated_fill_bound(chk, ix)
     base = ix.cls(OP)
     ops = [c for c in base.all_subclasses() if c.module.name == "mypyc.ir.ops" and "sources" in c.methods and not any(isinstance(n, ast.Raise) for n in c.methods["sources"].node.body)]
     if len(ops) < 35:
@@ -1007,3 +1008,26 @@ def run_glue_unbox_borrows(chk: Check, ix) -> None:
                         r19.violation(key, f.loc(c), "emit_unbox without borrow=True in glue code: the unboxed value is a new reference that nothing releases (e.g. `obj.prop = 2**100` through a property setter leaks the int; a tuple[object, int] leaks its item)")
     if n < 4:
         raise AnalysisError(f"only {n} emit_unbox sites found in emitwrapper.py / emitclass.py")
+
+
+def run_preallocated_fill_bound(chk: Check, ix) -> None:
+    """R06.20: a result preallocated from a length is filled by a loop that makes exactly that many stores."""
+    r20 = chk.rule("R06.20", "for_helpers.sequence_from_generator_preallocate_helper allocates the result with the source's length and fills it with the unchecked set-item primitives (CPyList_SetItemUnsafe / CPySequenceTuple_SetItemUnsafe), one store per iteration of for_loop_helper_with_index. The number of iterations therefore has to be the preallocated length: either only sources whose length cannot change are admitted (is_immutable_rprimitive / RTuple), or the loop keeps the given `length` as its bound (ForSequence.init must not discard it for mutable sequences)", floor=1)
+    fh = ix.module("mypyc.irbuild.for_helpers")
+    h = fh.functions.get("sequence_from_generator_preallocate_helper")
+    fs = fh.classes.get("ForSequence")
+    if h is None or fs is None or "init" not in fs.methods:
+        raise AnalysisError("for_helpers: preallocate helper / ForSequence.init not found")
+    admits_mutable = not any(isinstance(c, ast.Call) and call_name(c) == "is_immutable_rprimitive" for c in ast.walk(h.node))
+    init = fs.methods["init"]
+    discards = False
+    for i in ast.walk(init.node):
+        if isinstance(i, ast.If) and "is_immutable_rprimitive" in norm(i.test):
+            for a in ast.walk(ast.Module(body=i.orelse, type_ignores=[])):
+                if isinstance(a, ast.Assign) and norm(a.targets[0]) == "self.length_reg" and isinstance(a.value, ast.Constant) and a.value.value is None:
+                    discards = True
+    key = "preallocated list/tuple results are filled by a loop bounded by the preallocated length"
+    if admits_mutable and discards:
+        r20.violation(key, h.loc(), "the helper admits every sequence type (lists included) and ForSequence.init drops the given length for mutable sequences (`self.length_reg = None`: the live length is re-read on every iteration): when the body of the comprehension grows the list, stores go past the preallocated result (CPyList_SetItemUnsafe does not check); when it shrinks the list, trailing slots stay NULL")
+    else:
+        r20.ok(key, h.loc())
